@@ -369,7 +369,7 @@ static void sanitize(char* s) {
 static void classify_crash(const char* errpath, int status, char* key, size_t keyn, char* detail, size_t detn) {
     char* txt = calloc(1, 65536);
     FILE* f = fopen(errpath, "r");
-    size_t n = 0; if (f) { n = fread(txt, 1, 65535, f); fclose(f); } txt[n] = 0;
+    size_t n = 0; if (f) { if (fseek(f, 0, SEEK_END) == 0) { long sz = ftell(f); fseek(f, sz > 65535 ? sz - 65535 : 0, SEEK_SET); } n = fread(txt, 1, 65535, f); fclose(f); } txt[n] = 0;      /* the tail: the report of the crash is the last thing written */
     char kind[96] = "", acc[16] = "", fn[128] = "";
     char* e = strstr(txt, "ERROR: AddressSanitizer: ");
     if (e) {
@@ -398,6 +398,12 @@ static void classify_crash(const char* errpath, int status, char* key, size_t ke
         if (!fn[0]) snprintf(fn, sizeof fn, "%s", firstfn[0] ? firstfn : "unknown");
         snprintf(key, keyn, "asan.%s%s%s.%s", kind, acc[0] ? "." : "", acc, fn);
         if (S->feature[0] && !strcmp(fn, "unknown")) { strncat(key, ".", keyn - strlen(key) - 1); strncat(key, S->feature, keyn - strlen(key) - 1); }
+    } else if ((e = strstr(txt, "runtime error: ")) != NULL) {
+        /* UBSan (bounds): "<file>:<line>:<col>: runtime error: index 32 out of bounds for type 'int16_t [32]'" */
+        char* ls = e; while (ls > txt && ls[-1] != '\n') ls--;
+        char file[96] = "unknown"; { char* sl = ls; for (char* q = ls; q < e && *q != ':'; q++) if (*q == '/') sl = q + 1; size_t k = strcspn(sl, ":\n"); if (k > 90) k = 90; memcpy(file, sl, k); file[k] = 0; }
+        snprintf(key, keyn, "ubsan.%s.%s", strstr(e, "out of bounds") ? "index-out-of-bounds" : "runtime-error", file);
+        e = ls + strlen("ERROR: AddressSanitizer: ");      /* detail starts at the report line (see below) */
     } else {
         int sig = WIFSIGNALED(status) ? WTERMSIG(status) : 0;
         const char* sn = sig == SIGSEGV ? "SIGSEGV" : sig == SIGBUS ? "SIGBUS" : sig == SIGABRT ? "SIGABRT" :
